@@ -51,7 +51,7 @@ func init() {
 	}
 	register(&PropSpec{
 		ID: "C18",
-		Explanation: "Decides, for all paths: ValidateEndSessionRequest assigns the requested post_logout_redirect_uri to the session only after the client named by req.ClientID was fetched and ValidateEndSessionPostLogoutRedirectURI accepted the URI for it, and - with a hint - only after VerifyIDTokenHint succeeded or failed in the 'expired' class, a contradicting client_id was rejected and req.ClientID was set to the hint's authorized party (single writers for ClientID, UserID, session.ClientID); the session user is the hint's subject, the session client the fetched client's id, a state is appended by mergeQueryParams to the already chosen URI; the registration predicate accepts only exact equality with a registered URI or a path.Match of an opted-in glob; VerifyIDTokenHint builds IDTokenHintExpiredError only from the three time checks and both callers accept the expired class only via errors.As. The storage-chosen redirect of TerminateSessionFromRequest is by design and not decided.",
+		Explanation: "Decides, for all paths: ValidateEndSessionRequest assigns the requested post_logout_redirect_uri to the session only after the client named by req.ClientID was fetched and ValidateEndSessionPostLogoutRedirectURI accepted the URI for it, and - with a hint - only after VerifyIDTokenHint succeeded or failed in the 'expired' class, a contradicting client_id was rejected and req.ClientID was set to the hint's authorized party (single writers for ClientID, UserID, session.ClientID); the session user is the hint's subject, the session client the fetched client's id, a state is appended by mergeQueryParams to the already chosen URI; the registration predicate accepts only exact equality with a registered URI or a path.Match of an opted-in glob; VerifyIDTokenHint builds IDTokenHintExpiredError only from the three time checks and both callers accept the expired class only via errors.As. The storage-chosen redirect of TerminateSessionFromRequest is by design and not decided. Round 3: the id_token_hint key set is application-supplied or the provider's storage-backed key set; the shared claim predicates used by the hint verifier are part of this verdict.",
 		RuleText:    "obligation = (rule, function, sink site) incl. single-writer stores; non-trivial when guard facts were needed",
 		Assumptions: []string{"CanTerminateSessionFromRequest storages choose their own redirect (documented)"},
 		Trusted:     []string{"go/types, go/cfg (x/tools v0.50.0)", "stdlib path.Match, net/url"},
